@@ -83,8 +83,21 @@ fn main() {
     let id = args[0].clone();
     if id == "EVAL" {
         // ad-hoc probe: rscel-mc EVAL '<source>' ...
-        for src in &args[1..] {
-            println!("{}  =>  {}", src, real::eval(src, &[]).show());
+        // arguments of the form @name=<cel expr> bind name to the value of the expression
+        let mut b = rscel::BindContext::new();
+        for a in &args[1..] {
+            if let Some(rest) = a.strip_prefix('@') {
+                if let Some((n, e)) = rest.split_once('=') {
+                    if let real::Outcome::Value(v) = real::eval(e, &[]) {
+                        b.bind_param(n, v);
+                    } else {
+                        println!("cannot evaluate binding {}", a);
+                    }
+                }
+            }
+        }
+        for src in args[1..].iter().filter(|a| !a.starts_with('@')) {
+            println!("{}  =>  {}", src, real::eval_with(src, &b).show());
         }
         return;
     }
